@@ -137,7 +137,7 @@ def exec_for(V, s, st):
         f = V.uf('path.parents_seq', [z3.StringSort()], z3.SeqSort(z3.StringSort()))
         seqz = f(it.p.z)
         qi = z3.Int(fresh_name('pi'))
-        st.assume(z3.ForAll([qi], z3.Implies(z3.And(qi >= 0, qi < z3.Length(seqz)),
+        st.fact(z3.ForAll([qi], z3.Implies(z3.And(qi >= 0, qi < z3.Length(seqz)),
                                              paths.is_proper_ancestor(seqz[qi], it.p.z))))
         it = SV(SeqT(PATH), seqz)
     if isinstance(it, SV) and isinstance(it.t, OptT):
